@@ -20,3 +20,27 @@ func GLVBoundaryScalars(lambda, r *big.Int) []*big.Int {
 	}
 	return out
 }
+
+// OrderNeighbourScalars: integers whose double-and-add / windowed evaluation passes through small multiples of the
+// base point again: k*r + t for small k, t, and those values followed by further bits ((r + t)*2^j + u).
+func OrderNeighbourScalars(r *big.Int) []*big.Int {
+	var out []*big.Int
+	for k := int64(1); k <= 3; k++ {
+		for t := int64(-3); t <= 3; t++ {
+			v := new(big.Int).Mul(r, big.NewInt(k))
+			v.Add(v, big.NewInt(t))
+			out = append(out, v, new(big.Int).Neg(v))
+		}
+	}
+	for _, t := range []int64{1, 2, 3} {
+		for _, j := range []uint{1, 2, 4, 5, 9} {
+			for _, u := range []int64{0, 1, 3} {
+				v := new(big.Int).Add(r, big.NewInt(t))
+				v.Lsh(v, j)
+				v.Add(v, big.NewInt(u))
+				out = append(out, v)
+			}
+		}
+	}
+	return out
+}
